@@ -830,6 +830,10 @@ def series_computation(
     }
 
     def del_(series_name, index: int) -> None:
+        # The zeroth order holds the start data of a series. It is not given by
+        # the series definition, so it may not be recomputed after deleting it.
+        if not any(index[2:]):
+            return
         series[series_name].pop(index, None)
         linear_operator_series[series_name].pop(index, None)
 
